@@ -1,2 +1,245 @@
+//! GDS stream commands (C01, C02, C03, C10).
+use crate::gdsabs::*;
+use crate::util::*;
 use crate::CmdFn;
-pub fn commands() -> Vec<(&'static str, CmdFn)> { vec![] }
+use gds21::*;
+use serde_json::{json, Value};
+
+pub fn commands() -> Vec<(&'static str, CmdFn)> {
+    vec![("gds_s2i", gds_s2i), ("gds_record", gds_record), ("gds_fault", gds_fault), ("gds_readlog", gds_readlog)]
+}
+
+pub fn write_bytes(lib: &GdsLibrary) -> Result<Vec<u8>, String> {
+    let mut buf: Vec<u8> = Vec::new();
+    lib.write(&mut buf).map_err(err_str)?;
+    Ok(buf)
+}
+
+fn strip_unsupported(v: &Value) -> Value {
+    let mut v = v.clone();
+    if let Some(o) = v.as_object_mut() { o.insert("unsupported".into(), json!([])); }
+    v
+}
+
+/// S->I for C01 (write + re-read of the constructed library), the byte-level comparison with the independent
+/// encoder, and C03 (reading the independent encoder's bytes).
+fn gds_s2i(case: &Value) -> Value {
+    let want = strip_unsupported(&case["lib"]);
+    let spec_bytes = bytes_of(&case["bytes"]);
+    let unsupported = !geta(&case["lib"], "unsupported").is_empty();
+    let mut out = json!({"id": id(case), "outcome": "ok"});
+    // ---- C01: construct, write, read back
+    if !unsupported {
+        let lib = lib_of(&case["lib"]);
+        // constructor/projection self-test (machinery)
+        let selfproj = lib_json(&lib);
+        if let Some(d) = json_diff(&want, &selfproj, "") { out["glue_error"] = json!(format!("{:?}", d)); }
+        match guarded(|| write_bytes(&lib)) {
+            Err(p) => out["write"] = json!({"outcome":"panic","msg":p}),
+            Ok(Err(e)) => out["write"] = json!({"outcome":"err","msg":e}),
+            Ok(Ok(w)) => {
+                let first_diff = (0..w.len().max(spec_bytes.len())).find(|i| w.get(*i) != spec_bytes.get(*i));
+                out["write"] = json!({"outcome":"ok","len":w.len(),"bytes_equal": first_diff.is_none(), "first_diff": first_diff,
+                                      "got": first_diff.map(|i| w.get(i).copied()), "want": first_diff.map(|i| spec_bytes.get(i).copied())});
+                match guarded(|| GdsLibrary::from_bytes(&w)) {
+                    Err(p) => out["reread"] = json!({"outcome":"panic","msg":p}),
+                    Ok(Err(e)) => out["reread"] = json!({"outcome":"err","msg":err_str(e)}),
+                    Ok(Ok(l2)) => {
+                        let d = json_diff(&want, &lib_json(&l2), "");
+                        out["reread"] = json!({"outcome":"ok","eq": l2 == lib, "proj_eq": d.is_none(), "diff": d.map(|d| json!([d.0, d.1, d.2]))});
+                    }
+                }
+            }
+        }
+    }
+    // ---- C03: read the independent encoder's stream (+ padding after ENDLIB)
+    let mut stream = spec_bytes.clone();
+    stream.extend(std::iter::repeat(0u8).take(geti(case, "pad") as usize));
+    match guarded(|| GdsLibrary::from_bytes(&stream)) {
+        Err(p) => out["read"] = json!({"outcome":"panic","msg":p}),
+        Ok(Err(e)) => out["read"] = json!({"outcome":"err","msg":err_str(e)}),
+        Ok(Ok(l)) => {
+            let d = json_diff(&want, &lib_json(&l), "");
+            out["read"] = json!({"outcome":"ok","proj_eq": d.is_none(), "diff": d.map(|d| json!([d.0, d.1, d.2]))});
+        }
+    }
+    out["unsupported"] = json!(unsupported);
+    out
+}
+
+/// Frame a byte stream into records using only the four-byte header arithmetic.
+pub fn frame(bytes: &[u8]) -> (Vec<Value>, usize) {
+    let mut recs = Vec::new();
+    let mut p = 0usize;
+    while p + 4 <= bytes.len() {
+        let len = ((bytes[p] as usize) << 8) | bytes[p + 1] as usize;
+        if len < 4 {
+            // cannot advance: report the record and stop
+            recs.push(json!({"e":"rec","len": len, "rt": bytes[p + 2], "dt": bytes[p + 3], "bytes": []}));
+            break;
+        }
+        let end = (p + len).min(bytes.len());
+        recs.push(json!({"e":"rec","len": len, "rt": bytes[p + 2], "dt": bytes[p + 3], "bytes": &bytes[p + 4..end]}));
+        p = end;
+    }
+    (recs, p)
+}
+
+fn rand_string(rng: &mut Rng) -> String {
+    let n = rng.below(9) as usize;
+    let mut s = String::new();
+    for _ in 0..n {
+        s.push(match rng.below(12) { 0 => 'é', 1 => '中', _ => (b'a' + rng.below(26) as u8) as char });
+    }
+    s
+}
+fn rand_f64(rng: &mut Rng) -> f64 {
+    // in-range doubles incl. values next to powers of sixteen
+    match rng.below(5) {
+        0 => [1.0, 90.0, 0.001, 1e-9, 180.0, 270.0, 0.5][rng.below(7) as usize],
+        1 => { let k = rng.range(-60, 60) as i32; let x = 16f64.powi(k); f64::from_bits(x.to_bits() - rng.below(3)) }
+        _ => { let e = (rng.range(-250, 250) + 1023) as u64; f64::from_bits((rng.below(2) << 63) | (e << 52) | (rng.next() & ((1u64 << 52) - 1))) }
+    }
+}
+fn rand_pt(rng: &mut Rng) -> GdsPoint {
+    if rng.chance(1, 10) { GdsPoint::new(i32::MIN, i32::MAX) } else { GdsPoint::new(rng.range(-100000, 100000) as i32, rng.range(-100000, 100000) as i32) }
+}
+fn rand_strans(rng: &mut Rng) -> Option<GdsStrans> {
+    if rng.chance(1, 3) { return None; }
+    Some(GdsStrans { reflected: rng.chance(1, 2), abs_mag: rng.chance(1, 4), abs_angle: rng.chance(1, 4),
+        mag: if rng.chance(1, 2) { Some(rand_f64(rng)) } else { None }, angle: if rng.chance(1, 2) { Some(rand_f64(rng)) } else { None } })
+}
+fn rand_props(rng: &mut Rng) -> Vec<GdsProperty> {
+    (0..rng.below(3)).map(|_| GdsProperty { attr: rng.range(-32768, 32767) as i16, value: rand_string(rng) }).collect()
+}
+pub fn rand_lib(rng: &mut Rng, nstructs: usize, nelems: usize) -> GdsLibrary {
+    let mut lib = GdsLibrary::new(rand_string(rng));
+    lib.version = rng.range(-5, 700) as i16;
+    lib.units = GdsUnits(rand_f64(rng), rand_f64(rng));
+    let d = |rng: &mut Rng| GdsDateTime { year: rng.range(-1, 200) as i16, month: rng.range(0, 13) as i16, day: rng.range(0, 32) as i16,
+        hour: rng.range(0, 25) as i16, minute: rng.range(0, 61) as i16, second: rng.range(0, 61) as i16 };
+    lib.dates = GdsDateTimes { modified: d(rng), accessed: d(rng) };
+    for _ in 0..nstructs {
+        let mut s = GdsStruct::new(rand_string(rng));
+        s.dates = GdsDateTimes { modified: d(rng), accessed: d(rng) };
+        for _ in 0..rng.below(nelems as u64 + 1) {
+            let fl = if rng.chance(1, 4) { Some(GdsElemFlags(rng.below(256) as u8, rng.below(256) as u8)) } else { None };
+            let px = if rng.chance(1, 4) { Some(GdsPlex(rng.next() as i32)) } else { None };
+            let npts = rng.below(12) as usize;
+            let oi16 = |rng: &mut Rng| if rng.chance(1, 2) { Some(rng.range(-32768, 32767) as i16) } else { None };
+            let oi32 = |rng: &mut Rng| if rng.chance(1, 2) { Some(rng.next() as i32) } else { None };
+            let e: GdsElement = match rng.below(7) {
+                0 => GdsBoundary { layer: rng.range(-3, 300) as i16, datatype: rng.range(-3, 300) as i16, xy: (0..npts).map(|_| rand_pt(rng)).collect(),
+                                   elflags: fl, plex: px, properties: rand_props(rng) }.into(),
+                1 => GdsPath { layer: rng.range(0, 300) as i16, datatype: rng.range(0, 300) as i16, xy: (0..npts).map(|_| rand_pt(rng)).collect(),
+                               width: oi32(rng), path_type: oi16(rng), begin_extn: oi32(rng), end_extn: oi32(rng),
+                               elflags: fl, plex: px, properties: rand_props(rng) }.into(),
+                2 => GdsStructRef { name: rand_string(rng), xy: rand_pt(rng), strans: rand_strans(rng), elflags: fl, plex: px, properties: rand_props(rng) }.into(),
+                3 => GdsArrayRef { name: rand_string(rng), xy: [rand_pt(rng), rand_pt(rng), rand_pt(rng)], cols: rng.range(-2, 400) as i16,
+                                   rows: rng.range(-2, 400) as i16, strans: rand_strans(rng), elflags: fl, plex: px, properties: rand_props(rng) }.into(),
+                4 => GdsTextElem { string: rand_string(rng), layer: rng.range(0, 300) as i16, texttype: rng.range(0, 300) as i16, xy: rand_pt(rng),
+                                   presentation: if rng.chance(1, 2) { Some(GdsPresentation(rng.below(256) as u8, rng.below(256) as u8)) } else { None },
+                                   path_type: oi16(rng), width: oi32(rng), strans: rand_strans(rng), elflags: fl, plex: px, properties: rand_props(rng) }.into(),
+                5 => GdsNode { layer: rng.range(0, 300) as i16, nodetype: rng.range(0, 300) as i16, xy: (0..npts).map(|_| rand_pt(rng)).collect(),
+                               elflags: fl, plex: px, properties: rand_props(rng) }.into(),
+                _ => GdsBox { layer: rng.range(0, 300) as i16, boxtype: rng.range(0, 300) as i16,
+                              xy: [rand_pt(rng), rand_pt(rng), rand_pt(rng), rand_pt(rng), rand_pt(rng)], elflags: fl, plex: px, properties: rand_props(rng) }.into(),
+            };
+            s.elems.push(e);
+        }
+        lib.structs.push(s);
+    }
+    lib
+}
+
+/// I->S for C02 (and the I->S part of C01): write a library, frame the bytes into records.
+///   {lib: <abstract>} or {seed, structs, elems}
+fn gds_record(case: &Value) -> Value {
+    let lib = if case.get("lib").is_some() { lib_of(&case["lib"]) } else {
+        let mut rng = Rng::new(geti(case, "seed") as u64);
+        rand_lib(&mut rng, geti(case, "structs") as usize, geti(case, "elems") as usize)
+    };
+    let proj = lib_json(&lib);
+    match guarded(|| write_bytes(&lib)) {
+        Err(p) => json!({"id": id(case), "outcome":"panic", "msg": p, "lib": proj}),
+        Ok(Err(e)) => json!({"id": id(case), "outcome":"werr", "msg": e, "lib": proj}),
+        Ok(Ok(w)) => {
+            let (recs, consumed) = frame(&w);
+            // the I->S part of C01: read back
+            let rr = match guarded(|| GdsLibrary::from_bytes(&w)) {
+                Err(p) => json!({"outcome":"panic","msg":p}),
+                Ok(Err(e)) => json!({"outcome":"err","msg":err_str(e)}),
+                Ok(Ok(l2)) => { let d = json_diff(&proj, &lib_json(&l2), "");
+                    json!({"outcome":"ok","eq": l2 == lib, "proj_eq": d.is_none(), "diff": d.map(|d| json!([d.0, d.1, d.2]))}) }
+            };
+            json!({"id": id(case), "outcome":"ok", "lib": proj, "records": recs, "total": w.len(), "consumed": consumed, "reread": rr})
+        }
+    }
+}
+
+/// A `Read + Seek` source that logs every call the reader makes (the reader's step-by-step trace).
+pub struct LoggingSource {
+    data: Vec<u8>,
+    pos: u64,
+    pub log: std::rc::Rc<std::cell::RefCell<Vec<Value>>>,
+}
+impl std::io::Read for LoggingSource {
+    fn read(&mut self, buf: &mut [u8]) -> std::io::Result<usize> {
+        let at = self.pos as usize;
+        let avail = self.data.len().saturating_sub(at);
+        let n = buf.len().min(avail);
+        buf[..n].copy_from_slice(&self.data[at.min(self.data.len())..at.min(self.data.len()) + n]);
+        self.pos += n as u64;
+        let mut l = self.log.borrow_mut();
+        if l.len() < 2_000_000 { l.push(json!({"e":"read","at":at,"n":buf.len(),"got":n})); }
+        Ok(n)
+    }
+}
+impl std::io::Seek for LoggingSource {
+    fn seek(&mut self, to: std::io::SeekFrom) -> std::io::Result<u64> {
+        let new = match to {
+            std::io::SeekFrom::Start(p) => p as i64,
+            std::io::SeekFrom::Current(d) => self.pos as i64 + d,
+            std::io::SeekFrom::End(d) => self.data.len() as i64 + d,
+        };
+        if new < 0 { return Err(std::io::Error::new(std::io::ErrorKind::InvalidInput, "negative seek")); }
+        if new as u64 != self.pos {
+            self.log.borrow_mut().push(json!({"e":"seek","from":self.pos,"to":new}));
+        }
+        self.pos = new as u64;
+        Ok(self.pos)
+    }
+}
+
+/// Parse `bytes` through the instrumented source.  Returns (outcome, log).
+pub fn read_logged(bytes: Vec<u8>) -> (Value, Vec<Value>) {
+    use gds21::verif::{GdsParser, GdsReader};
+    let log = std::rc::Rc::new(std::cell::RefCell::new(Vec::new()));
+    let src = LoggingSource { data: bytes, pos: 0, log: log.clone() };
+    let r = guarded(move || {
+        let rdr = GdsReader::new(src);
+        match GdsParser::new(rdr) {
+            Err(e) => Err(err_str(e)),
+            Ok(mut p) => p.parse_lib().map_err(err_str),
+        }
+    });
+    let l = log.borrow().clone();
+    let out = match r {
+        Err(p) => json!({"outcome":"panic","msg":p}),
+        Ok(Err(e)) => json!({"outcome":"err","msg":e}),
+        Ok(Ok(lib)) => json!({"outcome":"ok","lib":lib_json(&lib)}),
+    };
+    (out, l)
+}
+
+fn gds_readlog(case: &Value) -> Value {
+    let mut stream = bytes_of(&case["bytes"]);
+    stream.extend(std::iter::repeat(0u8).take(case.get("pad").and_then(|p| p.as_u64()).unwrap_or(0) as usize));
+    let (mut out, log) = read_logged(stream);
+    out["id"] = id(case);
+    out["log"] = json!(log);
+    if let Some(o) = out.as_object_mut() { o.remove("lib"); }
+    out
+}
+
+fn gds_fault(_case: &Value) -> Value { json!({"outcome":"todo"}) }
